@@ -279,7 +279,7 @@ def run_pipeline(cx: Ctx, proto, vals, parts, pipeline: str, rng=None, cpp_batch
                 # the output stream the C++ writer is handed was used by its owner before and is not in its default state
                 # (numeric base, sign display, float notation, a locale with digit grouping, fill character)
                 run["ostate"] = ostate
-                cx.bump("cpp_hops_writing_to_an_ostream_that_is_not_in_its_default_state")
+                cx.bump("cpp_hops_reading_from_an_istream_with_exceptions_enabled" if ostate == 7 else "cpp_hops_writing_to_an_ostream_that_is_not_in_its_default_state")
             dec = cx.decoy(proto) if (rng is not None and rng.fork("decoy", hop).chance(0.5)) else None
             if dec is not None:
                 # process history: another protocol's writers and readers were at work in this process before
@@ -721,7 +721,7 @@ def model_task(task, ybin, root, prop):
                         batch = [r.choice([1, 2, 3, 64]) for _ in range(cm.copyto[proto.name])]
                     cx.bump("runs")
                     cx.last_collect = None
-                    ostate = r.fork("ostate", pl).choice([1, 2, 3, 4, 5, 6]) if (cm is not None and "cpp." in pl and r.fork("ostate?", pl).chance(0.3)) else 0
+                    ostate = r.fork("ostate", pl).choice([1, 2, 3, 4, 5, 6, 7, 7]) if (cm is not None and "cpp." in pl and r.fork("ostate?", pl).chance(0.3)) else 0
                     try:
                         # a long stream is always gathered before it is inspected: that is the history it was made for
                         why = run_pipeline(cx, proto, vals, parts, pl, r.fork("chunks", pl), batch, mode, collect=True if long_stream else None, ostate=ostate)
